@@ -21,6 +21,8 @@ enum {
     WO_BYT_0, WO_BYT_1, WO_BYT_128, WO_RAW_0, WO_RAW_2, WO_P2W,
     /* payloads that need the 4-byte length prefix; only used by the "big" pass (capacities around every piece boundary) */
     WO_STR_40000, WO_BYT_32768,
+    /* parametric operations of the "value" pass: the argument comes from wexp_vint / wexp_vdbl / wexp_vlen */
+    WO_INT_V, WO_DBL_V, WO_STR_L, WO_BYT_L, WO_STRZ_L, WO_RAW_L,
     /* operations that have no encoding: only "error set, nothing stored" is demanded */
     WO_STR_HUGE, WO_BYT_HUGE, WO_STRZ_NULL, WO_RAW_NULL, WO_RAW_HUGE, WO_RAW_WRAP,
     WO_NOPS
@@ -31,11 +33,20 @@ static const char *const wo_name[WO_NOPS] = {
     "object_begin", "object_end", "array_begin", "array_end", "true", "false", "int(1)", "int(-128)", "int(128)", "int(-32769)", "int(2^31)",
     "int(INT64_MIN)", "double(-1.5)", "string_with_len(0)", "string_with_len(1)", "string_with_len(127)", "string_with_len(128)",
     "string_with_len(300)", "write_string(\"ab\")", "write_name(\"a\")", "bytes(0)", "bytes(1)", "bytes(128)", "write_raw(0)", "write_raw(2)",
-    "parser_to_writer([1])", "string_with_len(40000)", "bytes(32768)", "string_with_len(INT32_MAX+1)", "bytes(SIZE_MAX)", "write_string(NULL)", "write_raw(NULL)", "write_raw(len=SIZE_MAX)", "write_raw(len=SIZE_MAX-1: counter+len wraps)"
+    "parser_to_writer([1])", "string_with_len(40000)", "bytes(32768)", "integer(V)", "double(V)", "string_with_len(L)", "bytes(L)", "write_string(L chars)", "write_raw(L)",
+    "string_with_len(INT32_MAX+1)", "bytes(SIZE_MAX)", "write_string(NULL)", "write_raw(NULL)", "write_raw(len=SIZE_MAX)", "write_raw(len=SIZE_MAX-1: counter+len wraps)"
 };
 
-static uint8_t wexp_payload[40100];       /* patterned source bytes */
+static uint8_t wexp_payload[70100];       /* patterned source bytes */
+static char wexp_zpayload[70100];         /* NUL-free text for write_string */
+static int64_t wexp_vint; static uint64_t wexp_vdbl; static size_t wexp_vlen;     /* arguments of the parametric operations */
 static uint8_t wexp_p2w_doc[] = { 0x42, 0x42, 0x10, 0x01, 0x43, 0x43 };     /* [[1]] : the inner [1] is what parser_to_writer copies */
+
+static void wexp_fill_payload(void)
+{
+    for (size_t i = 0; i < sizeof wexp_payload; i++) wexp_payload[i] = (uint8_t) (0x30 + i * 7 + (i >> 8));
+    for (size_t i = 0; i < sizeof wexp_zpayload; i++) wexp_zpayload[i] = (char) ('A' + i % 57);
+}
 
 typedef struct { size_t off, len; } wpiece;
 
@@ -69,6 +80,14 @@ static int wexp_ref_op(int op, vf_doc *ref, wpiece *pc)
         if (l) { a = ref->len; vf_put(ref, src, l); ONE(); }   /* payload */
         break;
     }
+    case WO_INT_V: vf_put_int(ref, 0x10, wexp_vint); ONE(); break;
+    case WO_DBL_V: vf_put1(ref, 0x46); for (int i = 0; i < 8; i++) vf_put1(ref, (uint8_t) (wexp_vdbl >> (8 * i))); ONE(); break;
+    case WO_STR_L: case WO_BYT_L: case WO_STRZ_L:
+        vf_put_int(ref, op == WO_BYT_L ? 0x18 : 0x14, (int64_t) wexp_vlen);
+        ONE();
+        if (wexp_vlen) { a = ref->len; vf_put(ref, op == WO_STRZ_L ? (const uint8_t *) wexp_zpayload : wexp_payload, wexp_vlen); ONE(); }
+        break;
+    case WO_RAW_L: vf_put(ref, wexp_payload, wexp_vlen); ONE(); break;
     case WO_RAW_0: ONE(); break;    /* a zero-length piece */
     case WO_RAW_2: vf_put(ref, "\x44\x45", 2); ONE(); break;
     case WO_P2W: vf_put(ref, wexp_p2w_doc + 1, 4); ONE(); break;
@@ -107,6 +126,12 @@ static bool wexp_real_op(int op, binson_writer *w)
     case WO_BYT_128: return binson_write_bytes(w, wexp_payload, 128);
     case WO_STR_40000: return binson_write_string_with_len(w, (const char *) wexp_payload, 40000);
     case WO_BYT_32768: return binson_write_bytes(w, wexp_payload, 32768);
+    case WO_INT_V: return binson_write_integer(w, wexp_vint);
+    case WO_DBL_V: { double d; memcpy(&d, &wexp_vdbl, 8); return binson_write_double(w, d); }
+    case WO_STR_L: return binson_write_string_with_len(w, (const char *) wexp_payload, wexp_vlen);
+    case WO_BYT_L: return binson_write_bytes(w, wexp_payload, wexp_vlen);
+    case WO_STRZ_L: { wexp_zpayload[wexp_vlen] = 0; bool r = binson_write_string(w, wexp_zpayload); wexp_zpayload[wexp_vlen] = 'z'; return r; }
+    case WO_RAW_L: return binson_write_raw(w, wexp_payload, wexp_vlen);
     case WO_RAW_0: return binson_write_raw(w, wexp_payload, 0);
     case WO_RAW_2: return binson_write_raw(w, (const uint8_t *) "\x44\x45", 2);
     case WO_P2W: {
@@ -144,7 +169,7 @@ static void wexp_describe(vf_str *o)
     for (int i = 0; i < wexp_nseq; i++) vf_str_printf(o, " %d", wexp_seq[i]);
     vf_str_printf(o, "\nops_readable:");
     for (int i = 0; i < wexp_nseq; i++) vf_str_printf(o, " %s", wo_name[wexp_seq[i]]);
-    vf_str_printf(o, "\nfailing_call_index: %d\n", wexp_opi_cur);
+    vf_str_printf(o, "\nfailing_call_index: %d\nvint: %lld\nvdbl: %llu\nvlen: %zu\n", wexp_opi_cur, (long long) wexp_vint, (unsigned long long) wexp_vdbl, wexp_vlen);
 }
 
 /* One run: the op sequence on a destination of exactly `cap` bytes. Returns
@@ -334,13 +359,49 @@ static size_t wexp_ref_size(const int *seq, int n)
     return ref.len;
 }
 
+/* one sequence at every capacity up to size+1 (see below for encodings longer than 2000 bytes); returns the encoded size */
+static size_t wexp_one_seq(const wexp_cfg *cf, const int *seq, int m, const char *sigprefix)
+{
+    vf_count(CT_W_SEQS, 1);
+    size_t size = wexp_ref_size(seq, m);
+    wexp_mm mm;
+    /* every capacity up to size+1, and at least 0..3 (reset refuses capacities below 2); for encodings longer
+     * than 2000 bytes: every capacity within 3 of a piece boundary (all interior capacities of one payload
+     * piece are alike: the piece is stored by a single bounded copy or not at all) */
+    size_t bnd[40]; int nb = 0;
+    if (size > 2000) {
+        static vf_doc rr; wpiece pcs[4];
+        rr.len = 0; bnd[nb++] = 0;
+        for (int i = 0; i < m; i++) if (seq[i] < WO_FIRST_NOENC) { int np = wexp_ref_op(seq[i], &rr, pcs); for (int k = 0; k < np && nb < 40; k++) bnd[nb++] = pcs[k].off + pcs[k].len; }
+    }
+    for (size_t cap = 0; cap <= (size + 1 > 3 ? size + 1 : 3); cap++) {
+        if (nb) {
+            bool near = false;
+            for (int k = 0; k < nb; k++) if (cap + 3 >= bnd[k] && cap <= bnd[k] + 3) near = true;
+            if (!near) { size_t nxt = size + 2; for (int k = 0; k < nb; k++) if (bnd[k] > cap + 3 && bnd[k] - 3 < nxt) nxt = bnd[k] - 3; cap = nxt - 1; continue; }
+        }
+        vf_count(CT_W_RUNS, 1);
+        vf_count(CT_W_STATES, (uint64_t) m + 1);
+        if (!wexp_run(cf, seq, m, cap, &mm, true)) {
+            /* determinism guard */
+            wexp_mm m2, m3;
+            if (wexp_run(cf, seq, m, cap, &m2, false) || wexp_run(cf, seq, m, cap, &m3, false) || strcmp(m2.why, mm.why) || strcmp(m3.why, mm.why))
+                vf_die("writer violation did not reproduce: %s", mm.why);
+            wexp_run(cf, seq, m, cap, &m2, false);  /* leaves wexp_* context set */
+            wexp_report(sigprefix, &mm);
+            break;
+        }
+    }
+    return size;
+}
+
 /* all sequences of length <= K over the alphabet, partitioned over workers by
  * sequence index; for each: every capacity 0..size+1, plus (C04) the re-run at
  * capacity = reported counter. */
 static uint64_t wexp_index_base;
 static void wexp_explore(const wexp_cfg *cf, int w, int W, uint64_t start, const char *sigprefix)
 {
-    for (size_t i = 0; i < sizeof wexp_payload; i++) wexp_payload[i] = (uint8_t) (0x30 + i * 7 + (i >> 8));
+    wexp_fill_payload();
     int seq[16];
     uint64_t index = 0;
     for (int n = 0; n <= cf->K; n++) {
@@ -358,36 +419,7 @@ static void wexp_explore(const wexp_cfg *cf, int w, int W, uint64_t start, const
                         int pos = (v - 1) / (WO_NOPS - WO_FIRST_NOENC), which = WO_FIRST_NOENC + (v - 1) % (WO_NOPS - WO_FIRST_NOENC);
                         for (int i = 0; i <= n; i++) { if (i == pos) seq[m++] = which; if (i < n) seq[m++] = cf->alpha[idx[i]]; }
                     }
-                    vf_count(CT_W_SEQS, 1);
-                    size_t size = wexp_ref_size(seq, m);
-                    wexp_mm mm;
-                    /* every capacity up to size+1, and at least 0..3 (reset refuses capacities below 2); for encodings longer
-                     * than 2000 bytes: every capacity within 3 of a piece boundary (all interior capacities of one payload
-                     * piece are alike: the piece is stored by a single bounded copy or not at all) */
-                    size_t bnd[40]; int nb = 0;
-                    if (size > 2000) {
-                        static vf_doc rr; wpiece pcs[4];
-                        rr.len = 0; bnd[nb++] = 0;
-                        for (int i = 0; i < m; i++) if (seq[i] < WO_FIRST_NOENC) { int np = wexp_ref_op(seq[i], &rr, pcs); for (int k = 0; k < np && nb < 40; k++) bnd[nb++] = pcs[k].off + pcs[k].len; }
-                    }
-                    for (size_t cap = 0; cap <= (size + 1 > 3 ? size + 1 : 3); cap++) {
-                        if (nb) {
-                            bool near = false;
-                            for (int k = 0; k < nb; k++) if (cap + 3 >= bnd[k] && cap <= bnd[k] + 3) near = true;
-                            if (!near) { size_t nxt = size + 2; for (int k = 0; k < nb; k++) if (bnd[k] > cap + 3 && bnd[k] - 3 < nxt) nxt = bnd[k] - 3; cap = nxt - 1; continue; }
-                        }
-                        vf_count(CT_W_RUNS, 1);
-                        vf_count(CT_W_STATES, (uint64_t) m + 1);
-                        if (!wexp_run(cf, seq, m, cap, &mm, true)) {
-                            /* determinism guard */
-                            wexp_mm m2, m3;
-                            if (wexp_run(cf, seq, m, cap, &m2, false) || wexp_run(cf, seq, m, cap, &m3, false) || strcmp(m2.why, mm.why) || strcmp(m3.why, mm.why))
-                                vf_die("writer violation did not reproduce: %s", mm.why);
-                            wexp_run(cf, seq, m, cap, &m2, false);  /* leaves wexp_* context set */
-                            wexp_report(sigprefix, &mm);
-                            break;
-                        }
-                    }
+                    size_t size = wexp_one_seq(cf, seq, m, sigprefix);
                     if (vf_want_sample() && m == cf->K && v == 0 && size > 3) {
                         vf_str s = { 0 };
                         vf_str_printf(&s, "writer ops [");
@@ -406,12 +438,53 @@ static void wexp_explore(const wexp_cfg *cf, int w, int W, uint64_t start, const
     }
 }
 
+
+/* value pass: one parametric operation, alone and between two one-byte tokens, x every capacity - integers +-2^k+d for every k,
+ * double bit patterns, every payload length 0..maxlen for string_with_len / bytes / write_string / write_raw, and a list of longer
+ * lengths (round and not round) at the capacities around the piece boundaries */
+static void wexp_values(const wexp_cfg *cf, int w, int W, uint64_t start, const char *sigprefix, size_t maxlen)
+{
+    wexp_fill_payload();
+    uint64_t index = 0;
+    int seq[3];
+#define VALUE_RUNS(op) do { seq[0] = (op); wexp_one_seq(cf, seq, 1, sigprefix); seq[0] = WO_TRUE; seq[1] = (op); seq[2] = WO_FALSE; wexp_one_seq(cf, seq, 3, sigprefix); } while (0)
+#define MINE() (index++, (index - 1) >= start && (int) ((index - 1) % (uint64_t) W) == w && (vf_set_index(wexp_index_base + index - 1), true))
+    for (int k = 0; k < 64; k++)
+        for (int d = -2; d <= 2; d++)
+            for (int sgn = 0; sgn < 2; sgn++) {
+                if (!MINE()) continue;
+                uint64_t u = (1ULL << k) + (uint64_t) (int64_t) d;
+                wexp_vint = (int64_t) (sgn ? (uint64_t) 0 - u : u);
+                VALUE_RUNS(WO_INT_V);
+            }
+    static const uint64_t dbl[] = { 0, 0x8000000000000000ULL, 0x3ff0000000000000ULL, 0x7ff0000000000000ULL, 0xfff8000000000001ULL, 1, 0x0102030405060708ULL, 0xffffffffffffffffULL, 0x00ff00ff00ff00ffULL, 0xff00ff00ff00ff00ULL };
+    for (size_t i = 0; i < sizeof dbl / sizeof dbl[0]; i++) { if (!MINE()) continue; wexp_vdbl = dbl[i]; VALUE_RUNS(WO_DBL_V); }
+    for (size_t l = 0; l <= maxlen; l++) {
+        if (!MINE()) continue;
+        if (vf_deadline_passed()) return;
+        wexp_vlen = l;
+        VALUE_RUNS(WO_STR_L); VALUE_RUNS(WO_BYT_L); VALUE_RUNS(WO_STRZ_L); VALUE_RUNS(WO_RAW_L);
+    }
+    static const size_t longer[] = { 2047, 2048, 4608, 4863, 32767, 32768, 32769, 65535, 65536, 65537, 65794, 70000 };
+    for (size_t i = 0; i < sizeof longer / sizeof longer[0]; i++) {
+        if (!MINE()) continue;
+        wexp_vlen = longer[i];
+        VALUE_RUNS(WO_STR_L); VALUE_RUNS(WO_BYT_L); VALUE_RUNS(WO_STRZ_L); VALUE_RUNS(WO_RAW_L);
+    }
+#undef VALUE_RUNS
+#undef MINE
+}
+
 /* replay of a writer case */
 static int wexp_replay(const wexp_cfg *cf, const char *text)
 {
     char *cap = vf_replay_get(text, "capacity"), *ops = vf_replay_get(text, "ops");
     if (!cap || !ops) vf_die("writer replay lacks capacity/ops");
-    for (size_t i = 0; i < sizeof wexp_payload; i++) wexp_payload[i] = (uint8_t) (0x30 + i * 7 + (i >> 8));
+    wexp_fill_payload();
+    { char *a = vf_replay_get(text, "vint"), *b = vf_replay_get(text, "vdbl"), *c = vf_replay_get(text, "vlen");
+      if (a) wexp_vint = strtoll(a, NULL, 10);
+      if (b) wexp_vdbl = strtoull(b, NULL, 10);
+      if (c) wexp_vlen = (size_t) strtoull(c, NULL, 10); }
     int seq[16], n = 0;
     for (char *p = ops; *p && n < 16;) { while (*p == ' ') p++; if (!*p) break; seq[n++] = (int) strtol(p, &p, 10); }
     wexp_mm mm;
